@@ -474,10 +474,19 @@ func c08bloomCase(c *vf.Ctx, i int) {
 	// a block scanned against the filter
 	if i%4 == 0 {
 		raw := c08block(r)
-		if blk, err := bchutil.NewBlockFromBytes(raw); err == nil && len(blk.Transactions()) > 0 {
+		if i%80 == 0 {
+			// a block message that carries no transactions at all (a header and
+			// a zero count): wire parses it
+			raw = append(r.Bytes(80), 0)
+			c.Inc("bloom/block-without-transactions")
+		}
+		if blk, err := bchutil.NewBlockFromBytes(raw); err == nil {
 			m.run("bloom.NewMerkleBlock", n+9+len(raw), func() string { return d() + fmt.Sprintf(" NewMerkleBlock(%x)", raw) }, func() { _, _ = bloom.NewMerkleBlock(blk, f) })
 			m.run("merkleblock.NewMerkleBlockWithFilter", n+9+len(raw), func() string { return d() + fmt.Sprintf(" NewMerkleBlockWithFilter(%x)", raw) }, func() {
 				_, _ = merkleblock.NewMerkleBlockWithFilter(blk, f)
+			})
+			m.run("merkleblock.NewMerkleBlockWithTxnSet", n+9+len(raw), func() string { return d() + fmt.Sprintf(" NewMerkleBlockWithTxnSet(%x)", raw) }, func() {
+				_, _ = merkleblock.NewMerkleBlockWithTxnSet(blk, []*chainhash.Hash{&h})
 			})
 		}
 	}
@@ -736,6 +745,48 @@ type c08ladder struct {
 	mk   func(n int) func() // builds the input of size n and returns the call
 }
 
+// c08denseBlock builds a block of n transactions listed children first.
+// complete=false: transaction k spends outputs 0 and 1 of transaction k+1.
+// complete=true: transaction k spends output k of every later transaction,
+// and only the last one carries the watched push aa bb cc.
+func c08denseBlock(n int, complete bool) *bchutil.Block {
+	txs := make([]*wire.MsgTx, n)
+	for k := n - 1; k >= 0; k-- { // parents (high k) first, so that ids exist
+		m := wire.NewMsgTx(1)
+		m.LockTime = uint32(k)
+		switch {
+		case k == n-1:
+			m.AddTxIn(wire.NewTxIn(wire.NewOutPoint(&chainhash.Hash{1}, 0), nil))
+		case complete:
+			for p := k + 1; p < n; p++ {
+				h := txs[p].TxHash()
+				m.AddTxIn(wire.NewTxIn(wire.NewOutPoint(&h, uint32(k)), nil))
+			}
+		default:
+			h := txs[k+1].TxHash()
+			m.AddTxIn(wire.NewTxIn(wire.NewOutPoint(&h, 0), nil))
+			m.AddTxIn(wire.NewTxIn(wire.NewOutPoint(&h, 1), nil))
+		}
+		nout := 2
+		if complete {
+			nout = n
+		}
+		for j := 0; j < nout; j++ {
+			script := []byte{0x51}
+			if complete && k == n-1 {
+				script = []byte{3, 0xaa, 0xbb, 0xcc}
+			}
+			m.AddTxOut(wire.NewTxOut(int64(j+1), script, wire.TokenData{}))
+		}
+		txs[k] = m
+	}
+	blk := wire.NewMsgBlock(&wire.BlockHeader{})
+	for k := 0; k < n; k++ {
+		blk.AddTransaction(txs[k])
+	}
+	return bchutil.NewBlock(blk)
+}
+
 func c08ladders() []c08ladder {
 	rep := strings.Repeat
 	net := allNets[0].P
@@ -805,6 +856,25 @@ func c08ladders() []c08ladder {
 			t := bchutil.NewTx(tx)
 			msg := wire.NewMsgFilterLoad(bytes.Repeat([]byte{0xff}, 64), 50, 0, wire.BloomUpdateAll)
 			return func() { bloom.LoadFilter(msg).MatchTxAndUpdate(t) }
+		}},
+		{"bloom.NewMerkleBlock/spend-chain-children-first", 2, func(n int) func() {
+			// every transaction spends two outputs of the next one in the block
+			// (children listed first); the filter matches everything
+			blk := c08denseBlock(n, false)
+			return func() {
+				bloom.NewMerkleBlock(blk, bloom.LoadFilter(wire.NewMsgFilterLoad([]byte{0xff}, 1, 0, wire.BloomUpdateAll)))
+			}
+		}},
+		{"merkleblock.NewMerkleBlockWithFilter/complete-spend-graph-children-first", 2, func(n int) func() {
+			// every transaction spends one output of every later one in the block;
+			// only the last one pays to the watched element, everything else
+			// becomes relevant through outpoints inserted during the scan
+			blk := c08denseBlock(n, true)
+			return func() {
+				f := bloom.NewFilter(1000, 7, 1e-6, wire.BloomUpdateAll)
+				f.Add([]byte{0xaa, 0xbb, 0xcc})
+				merkleblock.NewMerkleBlockWithFilter(blk, f)
+			}
 		}},
 		{"NewBlockFromBytes/many-txs", 500, func(n int) func() {
 			var hdr wire.BlockHeader
